@@ -1017,7 +1017,12 @@ impl Tuple {
 
         // Write header
         let original_xmin = self.xmin();
-        let header = TupleHeader::new(old_version + 1, original_xmin, None);
+        // The version counter is one byte: a row that already has 255 versions cannot take
+        // another one until its history is vacuumed. That is an error, not a panic.
+        let new_version = old_version
+            .checked_add(1)
+            .ok_or(TupleError::InvalidVersion(old_version as usize + 1))?;
+        let header = TupleHeader::new(new_version, original_xmin, None);
         cursor = header.write_to(buffer, cursor);
 
         // Write null bitmap for new values
